@@ -10,6 +10,8 @@ import Gts.Lemmas.Window
 import Gts.Lemmas.RefInfo
 import Gts.Lemmas.Record
 import Gts.Props.C04
+import Gts.Lemmas.MarksDelAll
+import Gts.Lemmas.MarkGuardOps
 namespace Gts.C03
 open Gts Loc
 
@@ -164,6 +166,94 @@ example : wf (compl (joined [ranged 2 5 true false, point 7, ranged 9 12 false t
     expandAbs (compl (joined [ranged 2 5 true false, point 7, ranged 9 12 false true])) 4 (-4) = false := by
   decide
 
+/-! ### partial markers after a deletion; the oracle's in-bounds predicate
+
+`outerMarks`, `outerLeaves`, `coordsWithin` (`Gts/Spec/Marks.lean`) are the Lean restatements of
+the Go oracles of `harness/spec.go`.  `remAt i k o` (`Gts/Lemmas/MarksDel.lean`): the residue `o`
+(if any) lies in the removed span `[i, i+k)`. -/
+
+/-- FULL STATEMENT (false on the model, and on the code): "after deleting `[i, i+k)` the 5'
+marker is set iff it was set or the first residue read by `l` was removed, and likewise the 3'
+marker with the last residue".  Witness `join(1..3,6..8)` with `[0, 3)` deleted: the first part
+loses all its residues and collapses to the site `0^1`, which carries no marker; the result
+`join(0^1,3..5)` has no 5' marker although the first residue read was removed.  (The property
+only speaks of an END whose residues were cut off — a part that disappears altogether has no end
+left; the Go oracle makes the same restriction, see `outer5Kept`.) -/
+theorem expand_del_marks_full_refuted :
+    ¬ (∀ (l : Loc) (i k : Int), wf l = true → 0 < k →
+        outerMarks (expand l i (-k)) =
+          ((outerMarks l).1 || remAt i k (den l).head?, (outerMarks l).2 || remAt i k (den l).getLast?)) := by
+  intro h
+  have := h (joined [ranged 0 3 false false, ranged 5 8 false false]) 0 3 (by decide) (by decide)
+  revert this
+  decide
+
+/-- **an end whose residues were cut off becomes partial (5' end)**: for every well-formed
+location of any kind, arity, nesting and strand, if the first residue-bearing leaf in reading
+order is a range that keeps at least one residue (`outer5Kept`, the oracle's own applicability
+test), then after deleting `[i, i+k)` the 5' marker is set iff it was set before or the first
+residue read by `l` (the head of `den l`) was among the removed ones.  Guard: no marker-moving
+rule of `Push` fires in a `Join` of the evaluation (`expandMarkAbs`). -/
+theorem expand_del_marks5_partial (l : Loc) (i k : Int) (hw : wf l = true) (hk : 0 < k)
+    (hg : expandMarkAbs l i (-k) = false) (h5 : outer5Kept l i k = true) :
+    (outerMarks (expand l i (-k))).1 = ((outerMarks l).1 || remAt i k (den l).head?) :=
+  (expand_del_outer l i k hw hk hg).1 h5
+
+/-- **… (3' end)**: if the last residue-bearing leaf is a range that keeps a residue, the 3'
+marker is set afterwards iff it was set or the last residue read by `l` was removed. -/
+theorem expand_del_marks3_partial (l : Loc) (i k : Int) (hw : wf l = true) (hk : 0 < k)
+    (hg : expandMarkAbs l i (-k) = false) (h3 : outer3Kept l i k = true) :
+    (outerMarks (expand l i (-k))).2 = ((outerMarks l).2 || remAt i k (den l).getLast?) :=
+  (expand_del_outer l i k hw hk hg).2 h3
+
+/-- … both ends under the hypotheses of `expand_del_partial` (K2 guard) plus duplicate-freeness —
+the conditions under which the Go oracle evaluates the two marker clauses -/
+theorem expand_del_marks_nodup_partial (l : Loc) (i k : Int) (hw : wf l = true) (hk : 0 < k)
+    (hk2 : expandAbs l i (-k) = false) (hnd : (den l).Nodup) :
+    (outer5Kept l i k = true →
+      (outerMarks (expand l i (-k))).1 = ((outerMarks l).1 || remAt i k (den l).head?)) ∧
+    (outer3Kept l i k = true →
+      (outerMarks (expand l i (-k))).2 = ((outerMarks l).2 || remAt i k (den l).getLast?)) :=
+  expand_del_outer l i k hw hk (expandDelMarkAbs_of_nodup l i k hw hk hk2 hnd)
+
+/-- **when every residue was removed** the result consists of zero-length sites only (every
+leaf is a between-site), so it denotes nothing and carries no marker — every kind and arity, no
+guard. -/
+theorem expand_del_all_removed (l : Loc) (i k : Int) (hw : wf l = true) (hk : 0 < k)
+    (hall : filterMapPos (delMap i k) (den l) = []) :
+    (leaves (expand l i (-k))).all isBetween = true ∧
+    outerMarks (expand l i (-k)) = (false, false) := by
+  have h := expand_del_allBetween l i k hw hk hall
+  refine ⟨by rw [← allLeaves_eq_all]; exact h, ?_⟩
+  rw [outerMarks_eq, marks_of_allBetween _ h]
+  rfl
+
+/-- **no resulting location refers to a position outside the new sequence**, with the oracle's
+own predicate: every leaf of a location inside `[0, L]` (not inverted) is, after deleting
+`[i, i+k)`, inside `[0, L-k]` and not inverted — every kind, nesting and arity, no guard. -/
+theorem expand_del_coordsWithin (L i k : Int) (hi : 0 ≤ i) (hk : 0 < k) (hL : i + k ≤ L) (l : Loc)
+    (h : coordsWithin l L = true) : coordsWithin (expand l i (-k)) (L - k) = true := by
+  rw [coordsWithin_eq] at *
+  exact expand_del_within L i k hi hk hL l h
+
+/-- non-vacuity: a complement-strand join read from position 11 down to 2; deleting `[10, 13)`
+cuts off the first residues read (the 5' end, a range that keeps residue 9), deleting `[2, 4)` the
+last ones; deleting `[0, 20)` leaves sites only -/
+example :
+    wf (compl (joined [ranged 2 5 false false, point 7, ranged 9 12 false false])) = true ∧
+    expandMarkAbs (compl (joined [ranged 2 5 false false, point 7, ranged 9 12 false false])) 10 (-3) = false ∧
+    outer5Kept (compl (joined [ranged 2 5 false false, point 7, ranged 9 12 false false])) 10 3 = true ∧
+    outer3Kept (compl (joined [ranged 2 5 false false, point 7, ranged 9 12 false false])) 2 2 = true ∧
+    remAt 10 3 (den (compl (joined [ranged 2 5 false false, point 7, ranged 9 12 false false]))).head? = true ∧
+    outerMarks (compl (joined [ranged 2 5 false false, point 7, ranged 9 12 false false])) = (false, false) ∧
+    outerMarks (expand (compl (joined [ranged 2 5 false false, point 7, ranged 9 12 false false])) 10 (-3)) = (true, false) ∧
+    outerMarks (expand (compl (joined [ranged 2 5 false false, point 7, ranged 9 12 false false])) 2 (-2)) = (false, true) ∧
+    filterMapPos (delMap 0 20) (den (compl (joined [ranged 2 5 false false, point 7, ranged 9 12 false false]))) = [] ∧
+    coordsWithin (compl (joined [ranged 2 5 false false, point 7, ranged 9 12 false false])) 13 = true ∧
+    expandAbs (compl (joined [ranged 2 5 false false, point 7, ranged 9 12 false false])) 10 (-3) = false ∧
+    (den (compl (joined [ranged 2 5 false false, point 7, ranged 9 12 false false]))).Nodup := by
+  decide
+
 /-! ### record level: what `gts.Delete` / `gts.Erase` / `gts.Slice` do to every feature -/
 
 /-- **Delete, record level**: every feature survives with unchanged key and qualifiers, and its
@@ -173,6 +263,24 @@ theorem delete_feature_partial (s : Seq) (i k : Int) (hk : 0 < k) (f : Feature) 
     ∃ f' ∈ (s.delete i k).feats, f'.key = f.key ∧ f'.props = f.props ∧
       den f'.loc ≼ filterMapPos (delMap i k) (den f.loc) := by
   refine ⟨{ f with loc := f.loc.expand i (-k) }, ?_, rfl, rfl, expand_del_partial f.loc i k hw hk hk2⟩
+  rw [delete_feats]; exact List.mem_map_of_mem hf
+
+/-- **Delete, record level (markers and bounds)**: the surviving feature's outer ends become
+partial exactly when their residues were cut off (under the oracle's applicability tests), and
+all its coordinates lie inside the shortened record. -/
+theorem delete_feature_marks_partial (s : Seq) (i k : Int) (hi : 0 ≤ i) (hk : 0 < k)
+    (hL : i + k ≤ s.len) (f : Feature) (hf : f ∈ s.feats)
+    (hw : wf f.loc = true) (hg : expandMarkAbs f.loc i (-k) = false)
+    (hc : coordsWithin f.loc s.len = true) :
+    ∃ f' ∈ (s.delete i k).feats, f'.key = f.key ∧ f'.props = f.props ∧
+      (outer5Kept f.loc i k = true →
+        (outerMarks f'.loc).1 = ((outerMarks f.loc).1 || remAt i k (den f.loc).head?)) ∧
+      (outer3Kept f.loc i k = true →
+        (outerMarks f'.loc).2 = ((outerMarks f.loc).2 || remAt i k (den f.loc).getLast?)) ∧
+      coordsWithin f'.loc (s.len - k) = true := by
+  refine ⟨{ f with loc := f.loc.expand i (-k) }, ?_, rfl, rfl,
+    expand_del_marks5_partial f.loc i k hw hk hg, expand_del_marks3_partial f.loc i k hw hk hg,
+    expand_del_coordsWithin s.len i k hi hk hL f.loc hc⟩
   rw [delete_feats]; exact List.mem_map_of_mem hf
 
 /-- **Erase, record level**: a feature is dropped iff it is not a `source` and lies wholly within
